@@ -215,6 +215,25 @@ impl<'tcx> Cx<'tcx> {
                     let _ = write!(o, ",\"ev\":{}", js(&format!("{}", v)));
                 }
             }
+            // small constant allocations behind references (e.g. a promoted `1..=9`): raw bytes
+            if let Ok(val) = c.const_.eval(tcx, env, c.span) {
+                let aid = match val {
+                    mir::ConstValue::Scalar(rustc_middle::mir::interpret::Scalar::Ptr(p, _)) => Some(p.provenance.alloc_id()),
+                    mir::ConstValue::Indirect { alloc_id, .. } => Some(alloc_id),
+                    _ => None,
+                };
+                if let Some(aid) = aid {
+                    if let rustc_middle::mir::interpret::GlobalAlloc::Memory(a) = tcx.global_alloc(aid) {
+                        let inner = a.inner();
+                        let n = inner.len();
+                        if n <= 64 {
+                            let bytes = inner.inspect_with_uninit_and_ptr_outside_interpreter(0..n);
+                            let hex: String = bytes.iter().map(|b| format!("{:02x}", b)).collect();
+                            let _ = write!(o, ",\"alloc\":{}", js(&hex));
+                        }
+                    }
+                }
+            }
             if let Const::Unevaluated(uv, _) = c.const_ {
                 let _ = write!(o, ",\"item\":{}", js(&self.def_path(uv.def)));
                 if uv.promoted.is_some() {
@@ -318,7 +337,27 @@ impl<'tcx> Cx<'tcx> {
             Rvalue::UnaryOp(op, a) => {
                 format!("{{\"r\":\"un\",\"op\":{},\"a\":{}}}", js(&format!("{:?}", op)), opj(a))
             }
-            Rvalue::Discriminant(p) => format!("{{\"r\":\"discr\",\"p\":{}}}", self.place(body, p)),
+            Rvalue::Discriminant(p) => {
+                // all discriminant values of the enum being inspected (lets rules know when a
+                // switch's `otherwise` edge is dead)
+                let pty = p.ty(&body.local_decls, self.tcx).ty;
+                let mut vals: Vec<String> = Vec::new();
+                let mut ety = String::new();
+                if let ty::Adt(adt, _) = pty.kind() {
+                    if adt.is_enum() {
+                        ety = self.def_path(adt.did());
+                        for (vidx, _) in adt.variants().iter_enumerated() {
+                            vals.push(js(&format!("{}", adt.discriminant_for_variant(self.tcx, vidx).val)));
+                        }
+                    }
+                }
+                format!(
+                    "{{\"r\":\"discr\",\"p\":{},\"enum\":{},\"vals\":{}}}",
+                    self.place(body, p),
+                    js(&ety),
+                    jlist(&vals)
+                )
+            }
             Rvalue::CopyForDeref(p) => format!("{{\"r\":\"use\",\"o\":{{\"c\":{}}},\"cfd\":true}}", self.place(body, p)),
             Rvalue::Aggregate(kind, ops) => {
                 let ops_j: Vec<String> = ops.iter().map(|o| opj(o)).collect();
